@@ -165,12 +165,160 @@ Proof.
     + intros a p q [<-|Ha] Hr; [|eauto]. cbn in *. apply find_resp_pos in Hr. lia.
 Qed.
 
+(* ---------- one step of the definition ---------- *)
+Lemma lin_pending rem m : forallb (fun o => negb (completed o)) rem = true -> lin_spec_from rem m.
+Proof.
+  intros E. exists []. repeat split; cbn; auto; try constructor.
+  - intros o [].
+  - intros o Ho Hc. rewrite forallb_forall in E. specialize (E o Ho). rewrite Hc in E. discriminate.
+Qed.
+
+Lemma lin_build rem m o : wf rem -> In o rem -> minimal o rem = true -> response_ok o (apply_op o m) = true ->
+  lin_spec_from (remove_op o rem) (apply_op o m) -> lin_spec_from rem m.
+Proof.
+  intros W Ho Hmin Hresp (order & N & Inc & Cmp & Rt & Leg).
+  exists (o :: order). repeat split.
+  - constructor; auto. intros Hin. apply Inc in Hin. revert Hin. now apply remove_op_not_in.
+  - intros x [<-|Hx]; auto. eapply In_remove_op; eauto.
+  - intros x Hx Hc. destruct (op_eqb o x) eqn:Ex.
+    + left. apply (wf_id _ W); auto.
+    + right. apply Cmp; auto. apply remove_op_keeps; auto.
+  - intros b Hb. unfold minimal in Hmin. rewrite forallb_forall in Hmin.
+    apply Inc, In_remove_op in Hb. specialize (Hmin b Hb). now apply negb_true_iff in Hmin.
+  - exact Rt.
+  - exact Hresp.
+  - exact Leg.
+Qed.
+
+Lemma lin_step rem m : wf rem -> lin_spec_from rem m -> forallb (fun o => negb (completed o)) rem = false ->
+  exists o, In o rem /\ minimal o rem = true /\ response_ok o (apply_op o m) = true /\
+            lin_spec_from (remove_op o rem) (apply_op o m).
+Proof.
+  intros W (order & N & Inc & Cmp & Rt & Leg) E.
+  destruct order as [|a r].
+  - exfalso. assert (forallb (fun o => negb (completed o)) rem = true); [|congruence].
+    apply forallb_forall. intros o Ho. destruct (completed o) eqn:Ec; auto. destruct (Cmp o Ho Ec).
+  - exists a. assert (Ha : In a rem) by (apply Inc; cbn; auto).
+    cbn in Rt, Leg. destruct Rt as [Rt1 Rt2]. destruct Leg as [L1 L2].
+    inversion N as [|? ? Na Nr]; subst. repeat split; auto.
+    + unfold minimal. apply forallb_forall. intros o Ho. apply negb_true_iff.
+      unfold precedes. destruct (o_resp o) as [[p q]|] eqn:Er; auto.
+      assert (Hc : completed o = true) by (unfold completed; now rewrite Er).
+      destruct (Cmp o Ho Hc) as [<-|Hin].
+      * pose proof (wf_resp _ W _ _ _ Ha Er). apply Nat.ltb_ge. lia.
+      * specialize (Rt1 o Hin). unfold precedes in Rt1. now rewrite Er in Rt1.
+    + exists r. repeat split; auto.
+      * intros x Hx. apply remove_op_keeps; [apply Inc; cbn; auto|].
+        destruct (op_eqb a x) eqn:Ex; auto.
+        assert (a = x) by (apply (wf_id _ W); auto; apply Inc; cbn; auto). subst. contradiction.
+      * intros o Ho Hc. pose proof (In_remove_op _ _ _ Ho) as Ho'.
+        destruct (Cmp o Ho' Hc) as [<-|]; auto. exfalso. revert Ho. now apply remove_op_not_in.
+Qed.
+
+(* ---------- boolean equalities used by the memo ---------- *)
+Lemma list_eqb_eq {A} (eqb : A -> A -> bool) (l1 l2 : list A) :
+  (forall x y, eqb x y = true -> x = y) -> list_eqb eqb l1 l2 = true -> l1 = l2.
+Proof.
+  intros He. revert l2; induction l1 as [|x r IH]; destruct l2 as [|y r2]; cbn; try discriminate; auto.
+  intros H. apply andb_prop in H as [H1 H2]. f_equal; auto.
+Qed.
+Lemma ctype_eqb_eq a b : ctype_eqb a b = true -> a = b.
+Proof. destruct a, b; cbn; congruence. Qed.
+Lemma request_eqb_eq a b : request_eqb a b = true -> a = b.
+Proof.
+  destruct a, b. unfold request_eqb. cbn. intros H.
+  apply andb_prop in H as [H H3]. apply andb_prop in H as [H1 H2].
+  apply ctype_eqb_eq in H1. apply Nat.eqb_eq in H2, H3. congruence.
+Qed.
+Lemma resp_eqb_eq a b : resp_eqb a b = true -> a = b.
+Proof.
+  destruct a as [[[t1 k1] v1] o1], b as [[[t2 k2] v2] o2]. cbn. intros H.
+  apply andb_prop in H as [H H4]. apply andb_prop in H as [H H3]. apply andb_prop in H as [H1 H2].
+  apply ctype_eqb_eq in H1. apply Nat.eqb_eq in H2, H3. apply Bool.eqb_prop in H4. congruence.
+Qed.
+Lemma op_full_eqb_eq a b : op_full_eqb a b = true -> a = b.
+Proof.
+  destruct a as [c1 i1 q1 n1 r1], b as [c2 i2 q2 n2 r2]. unfold op_full_eqb. cbn. intros H.
+  apply andb_prop in H as [H H5]. apply andb_prop in H as [H H4]. apply andb_prop in H as [H H3].
+  apply andb_prop in H as [H1 H2]. apply Nat.eqb_eq in H1, H2, H4. apply request_eqb_eq in H3. subst.
+  f_equal. destruct r1 as [[p r]|], r2 as [[q r']|]; cbn in H5; try discriminate; auto.
+  apply andb_prop in H5 as [Ha Hb]. apply Nat.eqb_eq in Ha. apply resp_eqb_eq in Hb. congruence.
+Qed.
+Lemma lcfg_eqb_eq a b : lcfg_eqb a b = true -> a = b.
+Proof.
+  destruct a as [r1 m1], b as [r2 m2]. unfold lcfg_eqb, kv_eqb. cbn. intros H. apply andb_prop in H as [H1 H2].
+  apply list_eqb_eq in H1; [|apply op_full_eqb_eq].
+  apply list_eqb_eq in H2.
+  - congruence.
+  - intros [x1 x2] [y1 y2]. cbn. intros E. apply andb_prop in E as [E1 E2]. apply Nat.eqb_eq in E1, E2. congruence.
+Qed.
+
+(* ---------- the memoised search ---------- *)
+Definition failed_ok (failed : list lcfg) : Prop := forall c, In c failed -> ~ lin_spec_from (fst c) (snd c).
+
+Definition res_ok (rem : list op) (m : kv) (res : bool * list lcfg) : Prop :=
+  failed_ok (snd res) /\ (fst res = true -> lin_spec_from rem m) /\ (fst res = false -> ~ lin_spec_from rem m).
+
+Lemma try_all_ok rec rem m :
+  wf rem -> forallb (fun o => negb (completed o)) rem = false ->
+  (forall o failed, In o rem -> failed_ok failed -> res_ok (remove_op o rem) (apply_op o m) (rec (remove_op o rem) (apply_op o m) failed)) ->
+  forall cands pre failed, rem = pre ++ cands -> failed_ok failed ->
+    (forall o, In o pre -> minimal o rem = true -> response_ok o (apply_op o m) = true ->
+               ~ lin_spec_from (remove_op o rem) (apply_op o m)) ->
+    res_ok rem m (try_all rec rem m cands failed).
+Proof.
+  intros W E Hrec. induction cands as [|o cs IH]; intros pre failed Hsplit Hf Hpre; cbn.
+  - rewrite app_nil_r in Hsplit. subst pre. repeat split; cbn; try discriminate.
+    + intros c [<-|Hc]; cbn; auto.
+      intros L. destruct (lin_step _ _ W L E) as (o & Ho & A & B & C). exact (Hpre o Ho A B C).
+    + intros _ L. destruct (lin_step _ _ W L E) as (o & Ho & A & B & C). exact (Hpre o Ho A B C).
+  - assert (Ho : In o rem) by (rewrite Hsplit; apply in_or_app; right; cbn; auto).
+    assert (Hsplit' : rem = (pre ++ [o]) ++ cs) by (rewrite <- app_assoc; exact Hsplit).
+    destruct (minimal o rem && response_ok o (apply_op o m)) eqn:Ec.
+    + apply andb_prop in Ec as [Ea Eb].
+      specialize (Hrec o failed Ho Hf). destruct (rec (remove_op o rem) (apply_op o m) failed) as [r failed'].
+      destruct Hrec as (F' & Ht & Hfalse). cbn in *. destruct r.
+      * repeat split; cbn; auto; try discriminate. intros _. eapply lin_build; eauto.
+      * apply (IH (pre ++ [o]) failed' Hsplit' F').
+        intros x Hx. apply in_app_iff in Hx as [Hx|[<-|[]]]; auto.
+    + apply (IH (pre ++ [o]) failed Hsplit' Hf).
+      intros x Hx A B. apply in_app_iff in Hx as [Hx|[<-|[]]]; auto.
+      rewrite A, B in Ec. discriminate.
+Qed.
+
+Lemma dfs_ok f : forall rem m failed, wf rem -> List.length rem < f -> failed_ok failed -> res_ok rem m (dfs f rem m failed).
+Proof.
+  induction f as [|f IH]; intros rem m failed W Hl Hf; [lia|]. cbn.
+  destruct (forallb (fun o => negb (completed o)) rem) eqn:E.
+  - repeat split; cbn; auto; try discriminate. intros _. now apply lin_pending.
+  - destruct (existsb (lcfg_eqb (rem, m)) failed) eqn:Em.
+    + repeat split; cbn; auto; try discriminate. intros _.
+      apply existsb_exists in Em as (c & Hc & Heq). apply lcfg_eqb_eq in Heq. subst c. exact (Hf _ Hc).
+    + eapply (try_all_ok (dfs f) rem m W E) with (pre := []); auto.
+      intros o failed0 Ho Hf0. apply IH; auto.
+      * now apply wf_remove.
+      * rewrite (remove_op_length o rem Ho) in Hl. lia.
+Qed.
+
 (* ---------- the checker decides the definition ---------- *)
+Lemma dfs_top h : res_ok (ops_of h) [] (dfs (S (List.length (ops_of h))) (ops_of h) [] []).
+Proof. apply dfs_ok; [apply ops_from_wf | lia | intros c []]. Qed.
+
 Theorem linearizable_sound_lemma h : linearizable h = true -> lin_spec h.
-Proof. unfold linearizable, lin_spec. apply search_sound. apply ops_from_wf. Qed.
+Proof. unfold linearizable, lin_spec. intros H. now apply (dfs_top h). Qed.
 
 Theorem linearizable_complete_lemma h : lin_spec h -> linearizable h = true.
 Proof.
-  unfold linearizable, lin_spec. intros (order & N & Inc & Cmp & Rt & Leg).
-  eapply search_complete; eauto. apply ops_from_wf.
+  unfold linearizable, lin_spec. intros L. destruct (dfs_top h) as (_ & _ & Hf).
+  destruct (fst (dfs (S (List.length (ops_of h))) (ops_of h) [] [])); auto. exfalso. exact (Hf eq_refl L).
+Qed.
+
+(* the plain search without memo decides the same thing *)
+Theorem search_decides h : search (S (List.length (ops_of h))) (ops_of h) [] = linearizable h.
+Proof.
+  destruct (linearizable h) eqn:E.
+  - apply linearizable_sound_lemma in E. destruct E as (order & N & Inc & Cmp & Rt & Leg).
+    eapply search_complete; eauto. apply ops_from_wf.
+  - destruct (search (S (List.length (ops_of h))) (ops_of h) []) eqn:Es; auto.
+    apply search_sound in Es; [|apply ops_from_wf]. apply linearizable_complete_lemma in Es. congruence.
 Qed.
